@@ -20,6 +20,7 @@ from ..canon import canon
 from ..engine import seq_iter, seq_shards
 
 ID = "C18"
+LEAN = True  # cases are distinct by construction; see engine.Acc
 RULE = (
     "(a) round trip decode(encode(t)) == t for every token sequence up to the bound over a text alphabet (letters, digit, space, accented Latin "
     "letters, punctuation, TeX special characters, $...$ math tokens, URL tokens) under keep_math x enclose_urls, through field values and "
